@@ -9,8 +9,8 @@ from dataclasses import dataclass, field
 
 VERIF = os.path.dirname(os.path.dirname(os.path.abspath(__file__)))
 KNOWN_FILE = os.path.join(VERIF, "known_findings.json")
-EVIDENCE_DIR = os.path.join(VERIF, "evidence")
-REPLAY_DIR = os.path.join(VERIF, "replay")
+EVIDENCE_DIR = os.environ.get("CV_EVIDENCE_DIR", os.path.join(VERIF, "evidence"))
+REPLAY_DIR = os.environ.get("CV_REPLAY_DIR", os.path.join(VERIF, "replay"))
 
 
 class AnalysisBroken(Exception):
